@@ -37,7 +37,8 @@ Script == <<
   Ev("1", 17, Msg("wl_data_device", 6, "data_offer", FALSE, <<New("wl_data_offer", S1)>>)),
   Ev("1", 18, Msg("wl_data_device", 6, "selection", FALSE, <<NilA>>)),
   Ev("1", 19, Msg("wl_callback", 5, "done", FALSE, <<IntA(5)>>)),
-  Ev("2", 20, Msg("wl_display", 1, "sync", FALSE, <<New("wl_callback", 3)>>)) >>
+  Ev("2", 20, Msg("wl_display", 1, "sync", FALSE, <<New("wl_callback", 3)>>)),
+  Ev("2", 21, Msg("wl_callback", 3, "done", TRUE, <<IntA(-3)>>)) >>     \* a negative value
 
 CONSTANT QPats      \* the second pattern of the pair laws
 VARIABLES p, q, h, phase
@@ -73,6 +74,7 @@ ArgsP == {[k |-> "noargs"], ArgsOf(<<>>, <<>>),
           ArgsOf(<<ArgI(FALSE, AnyT, ObjV(IdGenO(5, 1)))>>, <<>>), ArgsOf(<<ArgI(FALSE, AnyT, ObjV([k |-> "nil"]))>>, <<>>),
           ArgsOf(<<ArgI(FALSE, AnyT, WordV("wl_callback"))>>, <<>>), ArgsOf(<<ArgI(FALSE, AnyT, WordV("wl_region"))>>, <<>>),
           ArgsOf(<<>>, <<ArgI(FALSE, AnyT, WordV("wl_callback"))>>),
+          ArgsOf(<<ArgI(FALSE, AnyT, IntV(-3))>>, <<>>), ArgsOf(<<>>, <<ArgI(FALSE, AnyT, IntV(-3))>>),
           ArgsOf(<<ArgI(TRUE, Wd("id"), AnyV), ArgI(FALSE, AnyT, WordV("wl_data_offer"))>>, <<>>),
           ArgsOf(<<[k |-> "list", pos |-> <<ArgI(FALSE, AnyT, IntV(7)), ArgI(FALSE, AnyT, IntV(3))>>, neg |-> <<>>]>>, <<>>),
           ArgsOf(<<ArgI(FALSE, AnyT, [k |-> "list", pos |-> <<IntV(3), [k |-> "list", pos |-> <<AnyV>>, neg |-> <<IntV(7), ObjV([k |-> "nil"])>>]>>, neg |-> <<>>])>>, <<>>),
